@@ -504,6 +504,7 @@ func errDisciplineSeen(c *Check) {
 	failedResultSeen(c, fis)
 	emptyRangeSeen(c, fis)
 	directiveDestinationsSeen(c, fis)
+	arrayCopyStoreSeen(c, fis)
 	c.Rule("E4", "the value of a two-valued type assertion, map lookup or channel receive is not read where its ok flag is false (there it is the zero value: a nil connection, an empty entitlement, reply code 0)", 0)
 	for _, fi := range fis {
 		obs := commaOkSites(c.P, fi)
